@@ -73,12 +73,14 @@ CharList(idx, f, t) ==
   IN [i \in DOMAIN ids |-> <<ids[i], CharsOf(idx, ids[i], f, t)>>]
 
 \* stored weight of a posting = sum of the boosts of the term's occurrences (1 each unless typed otherwise)
-\* * document boost (field boost 1), in units of 1/Unit
+\* * field boost * document boost, in units of 1/Unit
 SumB(idx, d, f, t) == LET P == {j \in DOMAIN Toks(idx, d, f) : Toks(idx, d, f)[j] = t}
                           RECURSIVE S(_)
                           S(Q) == IF Q = {} THEN 0 ELSE LET j == CHOOSE x \in Q : TRUE IN TokB(idx, d, f, j) + S(Q \ {j})
                       IN S(P)
-W(idx, d, f, t) == Scale((SumB(idx, d, f, t) * Unit) \div 4, Doc(idx, d).b4)
+\* the field boost (in quarters): 2.0 for the field wb of the content worlds, 1.0 elsewhere
+FieldBoost4(f) == IF f = "wb" THEN 8 ELSE 4
+W(idx, d, f, t) == Scale(Scale((SumB(idx, d, f, t) * Unit) \div 4, FieldBoost4(f)), Doc(idx, d).b4)
 WeightList(idx, f, t) ==
   LET ids == SetToSortSeq({d \in Live(idx) : Tf(idx, d, f, t) > 0}, <)
   IN [i \in DOMAIN ids |-> <<ids[i], W(idx, ids[i], f, t)>>]
